@@ -234,7 +234,9 @@ def gen_case(ctx):
     assertable = [r for r in used if r not in passed_refs]
     lv = [p for p, n in levels(root) if refs_in(n) and not any(p[:1] == [k] for k in c["passed"])]
     if assertable and lv and rng.random() < 0.4:
-        for _ in range(rng.choice([1, 1, 2])):
+        many = rng.random() < 0.06          # more than ten assertions on one level (list rows are rebuilt by numeric name)
+        level_many = rng.choice(lv)
+        for _ in range(rng.choice([11, 12]) if many else rng.choice([1, 1, 2])):
             if rng.random() < 0.8:
                 a = gen_cmp(rng, assertable)
             else:
@@ -247,7 +249,7 @@ def gen_case(ctx):
                     pivot.update({"t": "prior", "ref": rng.choice(assertable)})
                 a = {"k": "chain", "first": first, "op": op2, "other": gen_operand(rng, assertable)}
                 feats.add("assert-chain")
-            c["asserts"].append({"level": rng.choice(lv), "a": a})
+            c["asserts"].append({"level": level_many if many else rng.choice(lv), "a": a})
             feats.add("assert")
     for r in used:
         s = pool[r]
